@@ -25,7 +25,7 @@ func main() {
 	n := fs.Int("n", 100, "number of random cases")
 	conc := fs.Bool("conc", false, "force concurrent mode")
 	big := fs.Bool("big", false, "include large sizes")
-	tmo := fs.Int("timeout-ms", 10000, "arrival timeout for gated replays")
+	tmo := fs.Int("timeout-ms", 5000, "arrival timeout for gated replays")
 	kd := fs.Int("kd", 8, "key divisor used by the model that emitted -in")
 	fs.Parse(os.Args[3:])
 	_ = in
@@ -46,6 +46,11 @@ func main() {
 		morassd.ConcTraces(w, vt.Rand(*seed, "morassconc"), *n)
 		w.Close()
 		fmt.Printf("runs=%d events=%d\n", *n, w.N)
+	case "morass/faults":
+		w := vt.Create(*out)
+		morassd.Faults(w, vt.Rand(*seed, "morassfault"), *n)
+		w.Close()
+		fmt.Printf("runs=%d\n", *n)
 	case "morass/sched":
 		w := vt.Create(*out)
 		k, bad := morassd.ReplaySchedules(w, *in, time.Duration(*tmo)*time.Millisecond)
